@@ -15,6 +15,8 @@ V = [
     {"": 1}, {"a": 1, "": 2}, 1000000000.25, 30000000001, 4503599627370497, 9007199254740993, 2 ** 1023, -(2 ** 1023), -1000000000.25, "a" * 40, list(range(12)),
     # strings that are not in Unicode normal form: 2 code points composing to 1, and 1 code point decomposing to 2
     "e\u0301", "\u0958", {"e\u0301": 1},
+    # arrays of arrays that are neither ascending nor free of duplicates once sorted
+    [[3], [1], [2]], [[2, 1], [1, 2], [2, 1]],
 ]
 
 # a smaller probe set for histories / schedules (one witness per JSON type + lookalikes)
